@@ -2,7 +2,7 @@ import Sx.Api
 /-
   Absence of undefined behaviour in driver programs (C08).
 
-  `Prog.Safe bad I p`: whatever chip and bus answer (values and failures), and whatever handle
+  `Prog.Safe bad G I p`: whatever chip and bus answer (values and failures), and whatever handle
   satisfying `I` the application leaves behind inside a callback, `p` never reaches undefined
   behaviour of a kind in `bad`, and every way it can end leaves a handle satisfying `I`.
 -/
@@ -10,20 +10,20 @@ namespace Sx
 
 variable {α β : Type}
 
-def Prog.Safe (bad : UB → Prop) (I : Handle → Prop) : Prog (Except Code α × Handle) → Prop
+def Prog.Safe (bad : UB → Prop) (G : CbEvent → Prop) (I : Handle → Prop) : Prog (Except Code α × Handle) → Prop
   | .ret rh => I rh.2
   | .ub u => ¬bad u
-  | .sread _ _ k => ∀ r, (k r).Safe bad I
-  | .rread _ k => ∀ r, (k r).Safe bad I
-  | .swrite _ _ k => ∀ r, (k r).Safe bad I
-  | .bwrite _ _ k => ∀ r, (k r).Safe bad I
-  | .bread _ n k => ∀ r, (∀ d, r = .ok d → d.length = n) → (k r).Safe bad I
-  | .rawbread _ n k => ∀ r, (∀ d, r = .ok d → d.length = n) → (k r).Safe bad I
-  | .callback _ h k => I h ∧ ∀ h', I h' → (k h').Safe bad I
+  | .sread _ _ k => ∀ r, (k r).Safe bad G I
+  | .rread _ k => ∀ r, (k r).Safe bad G I
+  | .swrite _ _ k => ∀ r, (k r).Safe bad G I
+  | .bwrite _ _ k => ∀ r, (k r).Safe bad G I
+  | .bread _ n k => ∀ r, (∀ d, r = .ok d → d.length = n) → (k r).Safe bad G I
+  | .rawbread _ n k => ∀ r, (∀ d, r = .ok d → d.length = n) → (k r).Safe bad G I
+  | .callback e h k => (G e ∧ I h) ∧ ∀ h', I h' → (k h').Safe bad G I
 
-theorem Prog.Safe_bind {bad : UB → Prop} {I : Handle → Prop} {p : Prog (Except Code α × Handle)}
+theorem Prog.Safe_bind {bad : UB → Prop} {G : CbEvent → Prop} {I : Handle → Prop} {p : Prog (Except Code α × Handle)}
     {g : Except Code α × Handle → Prog (Except Code β × Handle)}
-    (hp : p.Safe bad I) (hg : ∀ rh, I rh.2 → (g rh).Safe bad I) : (p.bind g).Safe bad I := by
+    (hp : p.Safe bad G I) (hg : ∀ rh, I rh.2 → (g rh).Safe bad G I) : (p.bind g).Safe bad G I := by
   induction p with
   | ret a => exact hg a hp
   | ub u => exact hp
@@ -36,32 +36,32 @@ theorem Prog.Safe_bind {bad : UB → Prop} {I : Handle → Prop} {p : Prog (Exce
   | callback e h k ih => exact ⟨hp.1, fun h' hi => ih h' (hp.2 h' hi)⟩
 
 /-- started from a handle satisfying `I` -/
-structure DM.SafeI (bad : UB → Prop) (I : Handle → Prop) (x : DM α) : Prop where
-  s : ∀ h, I h → (x h).Safe bad I
+structure DM.SafeI (bad : UB → Prop) (G : CbEvent → Prop) (I : Handle → Prop) (x : DM α) : Prop where
+  s : ∀ h, I h → (x h).Safe bad G I
 
 namespace DM
-variable {bad : UB → Prop} {I : Handle → Prop}
+variable {bad : UB → Prop} {G : CbEvent → Prop} {I : Handle → Prop}
 
-theorem SafeI_pure (a : α) : SafeI bad I (pure a : DM α) := ⟨fun _ hi => hi⟩
-theorem SafeI_pure' (a : α) : SafeI bad I (pure' a : DM α) := ⟨fun _ hi => hi⟩
-theorem SafeI_fail (c : Code) : SafeI bad I (fail c : DM α) := ⟨fun _ hi => hi⟩
-theorem SafeI_ub (u : UB) (hu : ¬bad u) : SafeI bad I (DM.ub u : DM α) := ⟨fun _ _ => hu⟩
-theorem SafeI_getH : SafeI bad I getH := ⟨fun _ hi => hi⟩
-theorem SafeI_setH (h : Handle) (hh : I h) : SafeI bad I (setH h) := ⟨fun _ _ => hh⟩
-theorem SafeI_modH (f : Handle → Handle) (hf : ∀ h, I h → I (f h)) : SafeI bad I (modH f) := ⟨fun h hi => hf h hi⟩
-theorem SafeI_cb (e : CbEvent) : SafeI bad I (cb e) := ⟨fun _ hi => ⟨hi, fun _ hi' => hi'⟩⟩
-theorem SafeI_sread (reg n : Nat) : SafeI bad I (sread reg n) := ⟨fun _ hi _ => hi⟩
-theorem SafeI_rread (reg : Nat) : SafeI bad I (rread reg) := ⟨fun _ hi _ => hi⟩
-theorem SafeI_swrite (reg : Nat) (d : List UInt8) : SafeI bad I (swrite reg d) := ⟨fun _ hi _ => hi⟩
-theorem SafeI_bwrite (reg : Nat) (d : List UInt8) : SafeI bad I (bwrite reg d) := ⟨fun _ hi _ => hi⟩
-theorem SafeI_bread (reg n : Nat) : SafeI bad I (bread reg n) := ⟨fun _ hi _ _ => hi⟩
-theorem SafeI_rawbread (reg n : Nat) : SafeI bad I (rawbread reg n) := ⟨fun _ hi _ _ => hi⟩
-theorem SafeI_ofExcept (r : Except Code α) : SafeI bad I (ofExcept r) := by cases r <;> exact ⟨fun _ hi => hi⟩
+theorem SafeI_pure (a : α) : SafeI bad G I (pure a : DM α) := ⟨fun _ hi => hi⟩
+theorem SafeI_pure' (a : α) : SafeI bad G I (pure' a : DM α) := ⟨fun _ hi => hi⟩
+theorem SafeI_fail (c : Code) : SafeI bad G I (fail c : DM α) := ⟨fun _ hi => hi⟩
+theorem SafeI_ub (u : UB) (hu : ¬bad u) : SafeI bad G I (DM.ub u : DM α) := ⟨fun _ _ => hu⟩
+theorem SafeI_getH : SafeI bad G I getH := ⟨fun _ hi => hi⟩
+theorem SafeI_setH (h : Handle) (hh : I h) : SafeI bad G I (setH h) := ⟨fun _ _ => hh⟩
+theorem SafeI_modH (f : Handle → Handle) (hf : ∀ h, I h → I (f h)) : SafeI bad G I (modH f) := ⟨fun h hi => hf h hi⟩
+theorem SafeI_cb (e : CbEvent) (hg : G e) : SafeI bad G I (cb e) := ⟨fun _ hi => ⟨⟨hg, hi⟩, fun _ hi' => hi'⟩⟩
+theorem SafeI_sread (reg n : Nat) : SafeI bad G I (sread reg n) := ⟨fun _ hi _ => hi⟩
+theorem SafeI_rread (reg : Nat) : SafeI bad G I (rread reg) := ⟨fun _ hi _ => hi⟩
+theorem SafeI_swrite (reg : Nat) (d : List UInt8) : SafeI bad G I (swrite reg d) := ⟨fun _ hi _ => hi⟩
+theorem SafeI_bwrite (reg : Nat) (d : List UInt8) : SafeI bad G I (bwrite reg d) := ⟨fun _ hi _ => hi⟩
+theorem SafeI_bread (reg n : Nat) : SafeI bad G I (bread reg n) := ⟨fun _ hi _ _ => hi⟩
+theorem SafeI_rawbread (reg n : Nat) : SafeI bad G I (rawbread reg n) := ⟨fun _ hi _ _ => hi⟩
+theorem SafeI_ofExcept (r : Except Code α) : SafeI bad G I (ofExcept r) := by cases r <;> exact ⟨fun _ hi => hi⟩
 
-theorem SafeI_bind {x : DM α} {f : α → DM β} (hx : SafeI bad I x) (hf : ∀ a, SafeI bad I (f a)) : SafeI bad I (x >>= f) := by
+theorem SafeI_bind {x : DM α} {f : α → DM β} (hx : SafeI bad G I x) (hf : ∀ a, SafeI bad G I (f a)) : SafeI bad G I (x >>= f) := by
   constructor
   intro h hi
-  show ((x h).bind _).Safe bad I
+  show ((x h).bind _).Safe bad G I
   apply Prog.Safe_bind (hx.s h hi)
   intro ⟨r, h'⟩ hi'
   cases r with
@@ -69,14 +69,14 @@ theorem SafeI_bind {x : DM α} {f : α → DM β} (hx : SafeI bad I x) (hf : ∀
   | error c => exact hi'
 
 /-- the value `getH` hands to the rest of the function is a handle that satisfies `I` -/
-theorem SafeI_getH_bind {f : Handle → DM β} (hf : ∀ h, I h → SafeI bad I (f h)) : SafeI bad I (getH >>= f) := by
+theorem SafeI_getH_bind {f : Handle → DM β} (hf : ∀ h, I h → SafeI bad G I (f h)) : SafeI bad G I (getH >>= f) := by
   constructor
   intro h hi
   exact (hf h hi).s h hi
 
 /-- a burst read hands exactly the number of bytes asked for to the rest of the function -/
-theorem SafeI_bread_bind {reg n : Nat} {f : List UInt8 → DM β} (hf : ∀ d, d.length = n → SafeI bad I (f d)) :
-    SafeI bad I (bread reg n >>= f) := by
+theorem SafeI_bread_bind {reg n : Nat} {f : List UInt8 → DM β} (hf : ∀ d, d.length = n → SafeI bad G I (f d)) :
+    SafeI bad G I (bread reg n >>= f) := by
   constructor
   intro h hi r hr
   cases r with
@@ -84,21 +84,95 @@ theorem SafeI_bread_bind {reg n : Nat} {f : List UInt8 → DM β} (hf : ∀ d, d
   | error c => exact hi
 
 /-- after `setH h0` the rest runs from `h0`, whatever the handle was -/
-theorem Safe_setH_bind (h0 h : Handle) (f : Unit → DM β) (hs : (f () h0).Safe bad I) : ((setH h0 >>= f) h).Safe bad I := hs
+theorem Safe_setH_bind (h0 h : Handle) (f : Unit → DM β) (hs : (f () h0).Safe bad G I) : ((setH h0 >>= f) h).Safe bad G I := hs
 
-theorem SafeI_attempt {x : DM α} (hx : SafeI bad I x) : SafeI bad I (attempt x) := by
+theorem SafeI_attempt {x : DM α} (hx : SafeI bad G I x) : SafeI bad G I (attempt x) := by
   constructor
   intro h hi
-  show ((x h).bind _).Safe bad I
+  show ((x h).bind _).Safe bad G I
   apply Prog.Safe_bind (hx.s h hi)
   intro ⟨r, h'⟩ hi'
   exact hi'
 
-theorem SafeI_ite {c : Prop} [Decidable c] {x y : DM α} (hx : c → SafeI bad I x) (hy : ¬c → SafeI bad I y) :
-    SafeI bad I (if c then x else y) := by
+theorem SafeI_ite {c : Prop} [Decidable c] {x y : DM α} (hx : c → SafeI bad G I x) (hy : ¬c → SafeI bad G I y) :
+    SafeI bad G I (if c then x else y) := by
   split
   · rename_i h; exact hx h
   · rename_i h; exact hy h
+
+/-! ### pointed rules: the program run from one given handle
+
+  `SafeI_bind` forgets everything about the handle between two statements except `I`.  Where a
+  function updates a counter it has just compared with a bound (`received`), the statements are
+  followed from the concrete handle instead. -/
+
+theorem Safe_at_getH_bind (f : Handle → DM β) (h : Handle) :
+    ((getH >>= f) h).Safe bad G I ↔ ((f h) h).Safe bad G I := Iff.rfl
+theorem Safe_at_modH_bind (m : Handle → Handle) (f : Unit → DM β) (h : Handle) :
+    ((modH m >>= f) h).Safe bad G I ↔ ((f ()) (m h)).Safe bad G I := Iff.rfl
+theorem Safe_at_modH (m : Handle → Handle) (h : Handle) : ((modH m) h).Safe bad G I ↔ I (m h) := Iff.rfl
+theorem Safe_at_cb (e : CbEvent) (h : Handle) : ((cb e) h).Safe bad G I ↔ (G e ∧ I h) ∧ ∀ h', I h' → I h' := Iff.rfl
+theorem Safe_at_pure (a : α) (h : Handle) : ((pure a : DM α) h).Safe bad G I ↔ I h := Iff.rfl
+theorem Safe_at_fail (c : Code) (h : Handle) : ((fail c : DM α) h).Safe bad G I ↔ I h := Iff.rfl
+theorem Safe_at_ub (u : UB) (h : Handle) : ((DM.ub u : DM α) h).Safe bad G I ↔ ¬bad u := Iff.rfl
+theorem Safe_at_ub_bind (u : UB) (f : α → DM β) (h : Handle) : ((DM.ub u >>= f) h).Safe bad G I ↔ ¬bad u := Iff.rfl
+theorem Safe_at_pure_bind (a : α) (f : α → DM β) (h : Handle) :
+    ((pure a >>= f) h).Safe bad G I ↔ ((f a) h).Safe bad G I := Iff.rfl
+theorem Safe_at_rread_bind (reg : Nat) (f : UInt8 → DM β) (h : Handle) (hi : I h)
+    (hf : ∀ v, ((f v) h).Safe bad G I) : ((rread reg >>= f) h).Safe bad G I := by
+  intro r
+  cases r with
+  | ok v => exact hf v
+  | error c => exact hi
+theorem Safe_at_bwrite_bind (reg : Nat) (d : List UInt8) (f : Unit → DM β) (h : Handle) (hi : I h)
+    (hf : ((f ()) h).Safe bad G I) : ((bwrite reg d >>= f) h).Safe bad G I := by
+  intro r
+  cases r with
+  | ok v => exact hf
+  | error c => exact hi
+theorem Safe_at_bread_bind (reg n : Nat) (f : List UInt8 → DM β) (h : Handle) (hi : I h)
+    (hf : ∀ d, d.length = n → ((f d) h).Safe bad G I) : ((bread reg n >>= f) h).Safe bad G I := by
+  intro r hr
+  cases r with
+  | ok d => exact hf d (hr d rfl)
+  | error c => exact hi
+theorem Safe_at_packetStore_bind (i : Nat) (v : UInt8) (f : Unit → DM β) (h : Handle) (hi : i < h.packet.length)
+    (hs : ((f ()) { h with packet := h.packet.wr i v }).Safe bad G I) :
+    ((Model.packetStore i v >>= f) h).Safe bad G I := by
+  unfold Model.packetStore
+  show (((if i < h.packet.length then setH { h with packet := h.packet.wr i v } else DM.ub .oobPacket) h).bind _).Safe bad G I
+  rw [if_pos hi]
+  exact hs
+theorem Safe_at_packetCopy_bind (off : Nat) (d : List UInt8) (f : Unit → DM β) (h : Handle)
+    (hi : off + d.length ≤ h.packet.length)
+    (hs : ((f ()) { h with packet := h.packet.wrs off d }).Safe bad G I) :
+    ((Model.packetCopy off d >>= f) h).Safe bad G I := by
+  unfold Model.packetCopy
+  show (((if off + d.length ≤ h.packet.length then setH { h with packet := h.packet.wrs off d } else DM.ub .oobPacket) h).bind _).Safe bad G I
+  rw [if_pos hi]
+  exact hs
+theorem Safe_at_ite {c : Prop} [Decidable c] {x y : DM α} (h : Handle)
+    (hx : c → (x h).Safe bad G I) (hy : ¬c → (y h).Safe bad G I) : ((if c then x else y) h).Safe bad G I := by
+  split
+  · rename_i hc; exact hx hc
+  · rename_i hc; exact hy hc
+theorem Safe_at_bind_of {x : DM α} {f : α → DM β} (h : Handle) (hx : (x h).Safe bad G I)
+    (hf : ∀ a h', I h' → ((f a) h').Safe bad G I) : ((x >>= f) h).Safe bad G I := by
+  show ((x h).bind _).Safe bad G I
+  apply Prog.Safe_bind hx
+  intro ⟨r, h'⟩ hi'
+  cases r with
+  | ok a => exact hf a h' hi'
+  | error c => exact hi'
+/-- fall back to the unpointed rule for a statement about which only `I` is needed afterwards -/
+theorem Safe_at_bind {x : DM α} {f : α → DM β} (hx : SafeI bad G I x) (h : Handle) (hi : I h)
+    (hf : ∀ a h', I h' → ((f a) h').Safe bad G I) : ((x >>= f) h).Safe bad G I := by
+  show ((x h).bind _).Safe bad G I
+  apply Prog.Safe_bind (hx.s h hi)
+  intro ⟨r, h'⟩ hi'
+  cases r with
+  | ok a => exact hf a h' hi'
+  | error c => exact hi'
 
 end DM
 
@@ -106,7 +180,7 @@ end DM
 macro "safe_step" : tactic => `(tactic| first
   | intro _
   | exact DM.SafeI_pure _ | exact DM.SafeI_pure' _ | exact DM.SafeI_fail _ | exact DM.SafeI_getH
-  | exact DM.SafeI_cb _
+  | exact DM.SafeI_cb _ (by trivial)
   | exact DM.SafeI_sread _ _ | exact DM.SafeI_rread _ | exact DM.SafeI_swrite _ _ | exact DM.SafeI_bwrite _ _
   | exact DM.SafeI_bread _ _ | exact DM.SafeI_rawbread _ _ | exact DM.SafeI_ofExcept _
   | apply DM.SafeI_getH_bind
